@@ -224,6 +224,19 @@ pub fn build(case: &Case, ctx: &mut CaseCtx) -> Built {
                             "partial draw",
                         );
                     }
+                    // the mirrored allowance (the two addresses swap roles) is granted and drawn down to exactly
+                    // zero: the listed entry is untouched by that
+                    if s % 8 == 3 && !(unfunded_pivot && !by_owner) {
+                        must(
+                            exec(&mut d, spender, Cw20ExecuteMsg::IncreaseAllowance { spender: owner.to_string(), amount: Uint128::new(7), expires: None }),
+                            "mirrored allowance",
+                        );
+                        must(
+                            exec(&mut d, owner, Cw20ExecuteMsg::TransferFrom { owner: spender.to_string(), recipient: bank.to_string(), amount: Uint128::new(7) }),
+                            "mirrored allowance drawn to zero",
+                        );
+                        ctx.count("cw20_mirrored_allowance_used_up");
+                    }
                     required.insert(Key::Addr(cands[s].to_string()));
                 }
             }
